@@ -260,17 +260,28 @@ func vh_C19_Mul() {
 // are below L < 2^253).
 var vSlideOffsets = [...]int{0, 50, 106, 162, 218, -1}
 
+// run of concrete one bits placed directly above the symbolic bits (0 = none): a carry out of the symbolic window
+// then ripples through the whole run, across limb boundaries
+var vSlideRuns = [...]int{0, 0, 0, 0, 0, 0, 60, 100}
+var vSlideRunOff = [...]int{0, 0, 0, 0, 0, 0, 0, 130}
+
 func vSlidingCase(window uint) {
 	vPrune(true) // digits above the symbolic region are semantically zero: infeasible sides of a fork are pruned by the solver
 	n := 8
 	if vTier() == 1 {
 		n = 14
 	}
-	off := vSlideOffsets[vCase(0, len(vSlideOffsets)-1)]
-	if off < 0 {
-		off = 253 - n
+	c := vCase(0, len(vSlideRuns)-1)
+	off, run := 0, vSlideRuns[c]
+	if run == 0 {
+		off = vSlideOffsets[c]
+		if off < 0 {
+			off = 253 - n
+		}
+	} else {
+		off = vSlideRunOff[c]
 	}
-	vNote("sliding-window recoding: quick 8 / thorough 14 symbolic bits at offsets {0, 50, 106, 162, 218, 253-N}, windows 5 and 7; all other scalar bits zero")
+	vNote("sliding-window recoding: quick 8 / thorough 14 symbolic bits at offsets {0, 50, 106, 162, 218, 253-N}, plus the symbolic bits below a run of 60 (offset 0) and 100 (offset 130) one bits (carry ripple through a long run), windows 5 and 7; all other scalar bits zero")
 	bits := vU32("bits")
 	vAssume(bits < 1<<uint(n))
 	// place the bits: build the 32-byte little-endian scalar and expand it with the real ExpandRaw
@@ -280,6 +291,11 @@ func vSlidingCase(window uint) {
 		if (v>>uint(i))&1 != 0 {
 			b[(off+i)/8] |= 1 << uint((off+i)%8)
 		}
+	}
+	want := vZu(uint64(bits)).Shl(off)
+	for i := 0; i < run; i++ {
+		b[(off+n+i)/8] |= 1 << uint((off+n+i)%8)
+		want = want.Add(vZi(1).Shl(off + n + i))
 	}
 	var s Bignum256
 	ExpandRaw(&s, b[:])
@@ -293,7 +309,7 @@ func vSlidingCase(window uint) {
 		sum = sum.Add(vZi(int(r[i])).Shl(i))
 		ok = ok && (r[i] == 0 || (r[i]&1 == 1 && r[i] <= m && r[i] >= -m))
 	}
-	vAssert(sum.Eq(vZu(uint64(bits)).Shl(off)), "sum of digits * 2^i == s")
+	vAssert(sum.Eq(want), "sum of digits * 2^i == s")
 	vAssert(ok, "non-zero digits are odd and bounded by 2^(w-1) - 1")
 }
 
